@@ -73,6 +73,11 @@ if len(sys.argv) > 2 and sys.argv[2] == 'round5':
 Focus request: earlier studies already collected more than a hundred changes for these properties, most of them in the functions most directly connected with each property. This time the place is fixed instead: make your changes in ''' + FILES[pid] + '''. Find edits THERE whose effect breaks the property above (if the first place offers nothing after honest effort, the second one named). Avoid the kinds collected already: missing/extra std::move or std::forward, a check moved outside its lock, counters or fields forgotten in copy/move constructors, dropped self-assignment guards, guards acquired late or released early, algorithm substitutions in the ordered queue list, delegating constructors, save-and-restore of counters, copy assignment rewritten in place. The two changes must be of different kinds and in different functions.
 '''
 
+if len(sys.argv) > 2 and sys.argv[2] == 'round6':
+    hint = '''
+Shape request: earlier studies already collected about 150 single-site changes for these properties (missing/extra std::move or std::forward, checks moved outside their lock, fields forgotten in copy/move constructors, dropped guards, wrong template indices, inverted or weakened conditions, algorithm substitutions). Do NOT deliver another single-site change of those kinds. This time each change should consist of TWO OR MORE COORDINATED EDITS in different functions (possibly different files), each of which looks like a harmless refactoring or optimisation on its own - ideally each alone even leaves the property intact - but which together break it. Shapes to think about (not to copy literally): a helper's postcondition is weakened or its result re-interpreted in a way that only one of its several callers depended on; the meaning of a field or counter is changed (count vs count-1, "owned" vs "borrowed", generation compared with < instead of <=, flag set before vs after) and one of the sites using it is not brought along; an invariant established in a constructor / assignment is relied on in a member function and the constructor is "simplified"; one lock is split into two (or one critical section into two) and a compound operation now spans both; a cached copy of a computed value (size, emptiness, last node, looked-up list, hash) is introduced and one mutator does not invalidate it; work is moved from one side of a hand-over to the other (enqueue side vs process side, remover vs list, filter mixin vs dispatcher) and one path of the receiving side is missed; a default template argument, trait or overload is changed and a distant specialisation silently selects another branch. The two deliverables must be of different shapes. Prefer places in this order where the property allows: the heterogeneous classes, the utilities (scopedremover, counterremover, conditionalremover, conditionalfunctor, argumentadapter, eventutil, orderedqueuelist, anydata, anyid), the mixins, the internal headers, then the three core headers.
+'''
+
 print(f'''You are given a scratch git worktree of the header-only C++11 library wqking/eventpp at {wt} (work ONLY inside that directory; never touch /repo or /verif, never read /verif). The library headers are in {wt}/include/eventpp, its unit tests (Catch) in {wt}/tests/unittest.
 
 Here is a semantic property the library is supposed to satisfy:
